@@ -15,6 +15,8 @@ pub mod c10;
 pub mod c11;
 pub mod c12;
 pub mod c13;
+pub mod c14;
+pub mod c15;
 
 #[derive(Debug, Clone, Copy, PartialEq, Eq)]
 pub enum Tier {
@@ -324,6 +326,8 @@ pub fn lean_checks() -> Vec<CheckDef> {
         CheckDef { name: "c11", run: c11::run, replay: c11::replay },
         CheckDef { name: "c12", run: c12::run, replay: c12::replay },
         CheckDef { name: "c13", run: c13::run, replay: c13::replay },
+        CheckDef { name: "c14", run: c14::run, replay: c14::replay },
+        CheckDef { name: "c15", run: c15::run, replay: c15::replay },
     ]
 }
 
